@@ -24,7 +24,7 @@ PROPS = {
                         "pixels = Render(Place(codewords)) is established by C07/C08, not re-derived here"],
     },
     "C02": {
-        "mc": ["MC_Codec"],
+        "mc": ["MC_Codec", "MC_Reader"],
         "level_text": 'The produced stream is judged by an independent reader written in TLA+ from the standard (Stream.tla), stepped codeword by codeword by TLC, plus catalogue checks (size in list, data/ecc counts) from Symbols.tla.',
         "level_note": 'Trusts: Stream.tla/Symbols.tla transcriptions (cross-validated by MC_Codec, golden vectors, C04/C12 runs).',
         "jobs": [enc_job("C02")],
@@ -203,11 +203,12 @@ MC = {
     "MC_Codec": {"spec": "MC_Codec", "must_take": ["Write", "StartRead", "Read"], "timeout": 1800},
     "MC_Codec_thorough": {"spec": "MC_Codec", "cfg": "MC_Codec_thorough.cfg", "must_take": ["Write", "StartRead", "Read"], "timeout": 3400},
     "MC_Planner": {"spec": "MC_Planner", "must_take": ["PIterate"], "timeout": 600},
+    "MC_Reader": {"spec": "MC_Reader", "must_take": ["Step"], "timeout": 900},
     "MC_SymbolList": {"spec": "MC_SymbolList", "must_take": ["Next"], "timeout": 1200},
     "MC_Placement": {"spec": "MC_Placement", "must_take": ["Statement"], "timeout": 900},
 }
 HOOK_COMMITS = ["d90b018"]
-SETUP_MC = ["MC_Codec", "MC_Placement", "MC_Planner", "MC_SymbolList"]
+SETUP_MC = ["MC_Codec", "MC_Reader", "MC_Placement", "MC_Planner", "MC_SymbolList"]
 NOT_YET = {}
 
 
